@@ -77,6 +77,10 @@ func main() {
 	c.Tier = *tier
 	fmt.Printf("loaded %d module packages (%d total), %d package-level funcs, goos=%q in %.1fs\n", len(c.Pkgs), len(c.All), c.NumFuncs, *goos, time.Since(t0).Seconds())
 
+	if d := os.Getenv("GTCHECK_DUMP"); d != "" {
+		rules.Dump(c, d)
+		return
+	}
 	ids := make([]string, 0, len(byProp))
 	for p := range byProp {
 		ids = append(ids, p)
